@@ -851,8 +851,9 @@ func c05Run2(c CaseC05, in []byte) *hx.Failure {
 		case 4:
 			packet.WithPES(&pk, uint64(c.Arg))
 		case 5:
-			pk.SetPID(c.Arg)
-			pk.SetContinuityCounter(c.Arg)
+			// in-range arguments: C05 quantifies over the arrays, not over arguments a caller must not pass
+			pk.SetPID(c.Arg & 0x1FFF)
+			pk.SetContinuityCounter(c.Arg & 15)
 			pk.IncContinuityCounter()
 			pk.SetTransportScramblingControl(packet.TransportScramblingControlOptions(c.Arg & 3))
 		default:
@@ -1063,14 +1064,14 @@ func c05Run2(c CaseC05, in []byte) *hx.Failure {
 		}
 	case "readpmt":
 		r := &fragReader{data: clone(in), chunks: c.Chunks, failAfter: -1}
-		if p, err := psi.ReadPMT(r, c.Arg); err == nil && p != nil {
+		if p, err := psi.ReadPMT(r, c.Arg&0x1FFF); err == nil && p != nil {
 			c05PokePMT(p)
 			c05ModifyPMT(p)
 		}
 	case "accumulator":
 		acc := packet.NewAccumulator(psi.PmtAccumulatorDoneFunc)
 		for _, p := range c05Packets(in) {
-			if packet.Pid(p) != c.Arg {
+			if packet.Pid(p) != c.Arg&0x1FFF {
 				continue
 			}
 			_, err := acc.WritePacket(p)
